@@ -9,6 +9,8 @@ NUMBER = "crates/runtime/src/types/number.rs"
 VM = "crates/runtime/src/vm.rs"
 RANGE = "crates/runtime/src/types/range.rs"
 STRSLICE = "crates/parser/src/string_slice.rs"
+PARSER = "crates/parser/src/parser.rs"
+CHUNK = "crates/bytecode/src/chunk.rs"
 
 MUTANTS = [
     # ---- V-frame
@@ -83,4 +85,33 @@ MUTANTS = [
          old="        if new_bounds.end <= self.bounds.end.to_usize()\n            && self.data.get(new_bounds.clone()).is_some()", new="        if self.data.get(new_bounds.clone()).is_some()", expect="K-strslice::strslice_with_bounds_stays_inside"),
     dict(name="strslice_split_escapes_parent", kind="break", prop="C15", units=["K-strslice"], file=STRSLICE,
          old="if split_point <= self.bounds.end.to_usize() && self.data.is_char_boundary(split_point) {", new="if self.data.is_char_boundary(split_point) {", expect="K-strslice::strslice_split_stays_inside"),
+    # ---- V-index / V-prec / V-debuginfo / V-strslice / V-cursors / V-adaptors / V-lexer
+    dict(name="index_negative_not_clamped", kind="break", prop="C01", units=["V-index"], file=VM,
+         old="size - (index as isize).unsigned_abs().min(size)", new="size - (index as isize).unsigned_abs()", expect="V-index::signed_index_to_unsigned"),
+    dict(name="prec_and_or_swapped", kind="break", prop="C01", units=["V-prec"], file=PARSER,
+         old="        Or => (5, 6),\n        And => (7, 8),", new="        Or => (7, 8),\n        And => (5, 6),", expect="V-prec::operator_precedence"),
+    dict(name="prec_subtract_right_assoc", kind="break", prop="C01", units=["V-prec"], file=PARSER,
+         old="Add | Subtract => (13, 14),", new="Add | Subtract => (14, 13),", expect="V-prec::operator_precedence"),
+    dict(name="prec_quiet_power_right_assoc", kind="quiet", prop="C01", units=["V-prec"], file=PARSER,
+         old="Power => (17, 18),", new="Power => (18, 17),", expect=""),
+    dict(name="debuginfo_lookup_strict", kind="break", prop="C12", units=["V-debuginfo"], file=CHUNK,
+         old="if entry.0 <= ip {", new="if entry.0 < ip {", expect="V-debuginfo::DebugInfo::get_source_span"),
+    dict(name="debuginfo_merge_ignores_span", kind="break", prop="C12", units=["V-debuginfo"], file=CHUNK,
+         old="            && entry.1 == span\n", new="            && entry.1.start == span.start\n", expect="V-debuginfo::DebugInfo::push"),
+    dict(name="tupleslice_escapes_parent", kind="break", prop="C14", units=["V-strslice"], file="crates/runtime/src/types/tuple.rs",
+         old="if new_bounds.end <= self.bounds.end && self.data.get(new_bounds.clone()).is_some() {", new="if self.data.get(new_bounds.clone()).is_some() {", expect="V-strslice::TupleSlice::with_bounds"),
+    dict(name="cursor_list_next_back_crosses", kind="break", prop="C13", units=["V-cursors"], file="crates/runtime/src/types/iterator.rs", count=6,
+         old="if self.end > self.index {", new="if self.end > 0 {", expect="V-cursors::"),
+    dict(name="adaptor_take_off_by_one", kind="break", prop="C13", units=["V-adaptors"], file="crates/runtime/src/core_lib/iterator/adaptors.rs",
+         old="        if self.remaining > 0 {\n            self.remaining -= 1;\n            self.iter.next()", new="        if self.remaining > 1 {\n            self.remaining -= 1;\n            self.iter.next()", expect="V-adaptors::Take::next"),
+    dict(name="adaptor_skip_back_yields_skipped", kind="break", prop="C13", units=["V-adaptors"], file="crates/runtime/src/core_lib/iterator/adaptors.rs",
+         old="            self.iter.nth(self.remaining - 1);\n            self.remaining = 0;", new="            self.remaining = 0;", expect="V-adaptors::Skip::next_back"),
+    dict(name="adaptor_chain_pulls_b_early", kind="break", prop="C13", units=["V-adaptors"], file="crates/runtime/src/core_lib/iterator/adaptors.rs",
+         old="            Some(ref mut iter) => match iter.next() {\n                output @ Some(_) => output,", new="            Some(ref mut iter) => match (iter.next(), self.iter_b.next()).0 {\n                output @ Some(_) => output,", expect="V-adaptors::Chain::next"),
+    dict(name="lexer_comment_forgets_line", kind="break", prop="C09", units=["V-lexer"], file="crates/lexer/src/lexer.rs",
+         old="                    '\\n' => {\n                        position.line += 1;\n                        position.column = 0;\n                    }\n                    _ => {}", new="                    '\\n' => {\n                        position.column = 0;\n                    }\n                    _ => {}", expect="V-lexer::TokenLexer::consume_comment"),
+    dict(name="lexer_newline_crlf_one_byte", kind="break", prop="C09", units=["V-lexer"], file="crates/lexer/src/lexer.rs",
+         old="            consumed_bytes += 1;\n            chars.next();", new="            chars.next();", expect="V-lexer::TokenLexer::consume_newline"),
+    dict(name="lexer_advance_breaks_contiguity", kind="break", prop="C09", units=["V-lexer"], file="crates/lexer/src/lexer.rs",
+         old="        self.span = Span {\n            start: self.span.end,\n            end: position,\n        };", new="        self.span = Span {\n            start: self.span.start,\n            end: position,\n        };", expect="V-lexer::TokenLexer::advance_to_position"),
 ]
